@@ -555,7 +555,9 @@ func InLoop(in ssa.Instruction) bool {
 type Held struct {
 	fn     *ssa.Function
 	in     map[*ssa.BasicBlock]map[string]bool
-	Defers map[string]bool // locks released by a deferred Unlock
+	Defers map[string]bool // locks released by a deferred Unlock (or, in the normal form, by the deferred unlock of an absorbed helper at that helper's exits)
+	// AtExit: locks released by a deferred Unlock of this very function, i.e. held until it returns
+	AtExit map[string]bool
 }
 
 func lockOp(in ssa.Instruction) (path string, acquire, release, deferred bool) {
@@ -590,7 +592,7 @@ func lockOp(in ssa.Instruction) (path string, acquire, release, deferred bool) {
 }
 
 func NewHeld(fn *ssa.Function) *Held {
-	h := &Held{fn: fn, in: map[*ssa.BasicBlock]map[string]bool{}, Defers: map[string]bool{}}
+	h := &Held{fn: fn, in: map[*ssa.BasicBlock]map[string]bool{}, Defers: map[string]bool{}, AtExit: map[string]bool{}}
 	if len(fn.Blocks) == 0 {
 		return h
 	}
@@ -614,8 +616,12 @@ func NewHeld(fn *ssa.Function) *Held {
 		return out
 	}
 	AllInstrs(fn, func(in ssa.Instruction) {
-		if p, _, rel, def := lockOp(in); rel && def {
+		// a deferred unlock, or the deferred unlock of an absorbed helper placed at the helper's exits
+		if p, _, rel, def := lockOp(in); rel && (def || DeferOrigin(in)) {
 			h.Defers[p] = true
+			if def {
+				h.AtExit[p] = true
+			}
 		}
 	})
 	h.in[fn.Blocks[0]] = map[string]bool{}
